@@ -3,5 +3,6 @@ CONSTANTS
   Pieces <- MCPieces
   Restarts = {"none", "keep", "drop"}
   AllNumberings = FALSE
+  LookupEveryOldPacket = TRUE
 INVARIANTS SetDetermined OneIdPerConn AllVisible NextIdFresh MasksSound PrintHistory
 PROPERTIES IdStable NewIdsFresh MasksRight
